@@ -320,12 +320,14 @@ namespace adept {
       // corner of the matrix
       const T* left_start;
       if (left_order == ROW_MAJOR) {
+	// cppblas_gbmv treats a row-major matrix as the transpose of a
+	// column-major one with LDiags superdiagonals
 	order = BlasRowMajor;
-	left_start = left_ptr-UDiags;
+	left_start = left_ptr-LDiags;
       }
       else {
 	order = BlasColMajor;
-	left_start = left_ptr-LDiags;
+	left_start = left_ptr-UDiags;
       }
       Array<1,T,(LIsActive||RIsActive)> ans(right.dimension(0));
       cppblas_gbmv(order, BlasNoTrans, left_dim, left_dim, LDiags, UDiags,
@@ -390,12 +392,14 @@ namespace adept {
       // corner of the matrix
       const T* left_start;
       if (left_order == ROW_MAJOR) {
+	// cppblas_gbmv treats a row-major matrix as the transpose of a
+	// column-major one with LDiags superdiagonals
 	order = BlasRowMajor;
-	left_start = left_ptr-UDiags;
+	left_start = left_ptr-LDiags;
       }
       else {
 	order = BlasColMajor;
-	left_start = left_ptr-LDiags;
+	left_start = left_ptr-UDiags;
       }
       Array<2,T,(LIsActive||RIsActive)> ans(right.dimension(0),right.dimension(1));
       for (Index i = 0; i < right.dimension(1); ++i) {
